@@ -13,9 +13,10 @@ CONSTANT Dev            \* set of named deviations (known findings) switched on 
 VARIABLES l,            \* index of the next event
           bad,          \* scenario ids with an unexplained event
           skip,         \* TRUE while skipping the rest of a rejected scenario
-          nscn          \* scenarios started
+          nscn,         \* scenarios started
+          envbad        \* scenario ids whose CASE (not the code) violates the family's assumptions: a harness error
 
-tcvars == <<l, bad, skip, nscn>>
+tcvars == <<l, bad, skip, nscn, envbad>>
 
 Trace == ndJsonDeserialize(IOEnv.TRACE_FILE)
 More  == l <= Len(Trace)
@@ -23,13 +24,15 @@ Ev    == Trace[l]
 IsEv(name) == More /\ ~skip /\ Ev.ev = name
 Has(r, f) == f \in DOMAIN r
 
-TCInit == l = 1 /\ bad = {} /\ skip = FALSE /\ nscn = 0
+TCInit == l = 1 /\ bad = {} /\ skip = FALSE /\ nscn = 0 /\ envbad = {}
 
 \* bookkeeping of the four kinds of step
-Begin   == More /\ Ev.ev = "Scenario" /\ l' = l + 1 /\ skip' = FALSE /\ nscn' = nscn + 1 /\ bad' = bad
-Accept  == l' = l + 1 /\ UNCHANGED <<bad, skip, nscn>>
-Reject  == More /\ ~skip /\ Ev.ev # "Scenario" /\ l' = l + 1 /\ bad' = bad \cup {Ev.scn} /\ skip' = TRUE /\ nscn' = nscn
-Skipped == More /\ skip /\ Ev.ev # "Scenario" /\ l' = l + 1 /\ UNCHANGED <<bad, skip, nscn>>
-Finish  == l = Len(Trace) + 1 /\ l' = l + 1 /\ UNCHANGED <<bad, skip, nscn>>
-           /\ PrintT(<<"RESULT", Len(Trace), nscn, bad>>)
+Begin   == More /\ Ev.ev = "Scenario" /\ l' = l + 1 /\ skip' = FALSE /\ nscn' = nscn + 1 /\ bad' = bad /\ envbad' = envbad
+Accept  == l' = l + 1 /\ UNCHANGED <<bad, skip, nscn, envbad>>
+Reject  == More /\ ~skip /\ Ev.ev # "Scenario" /\ l' = l + 1 /\ bad' = bad \cup {Ev.scn} /\ skip' = TRUE /\ nscn' = nscn /\ envbad' = envbad
+\* the case itself is outside the family's assumptions (generator / fake at fault): never a verdict about the code
+RejectEnv == More /\ ~skip /\ Ev.ev # "Scenario" /\ l' = l + 1 /\ envbad' = envbad \cup {Ev.scn} /\ skip' = TRUE /\ nscn' = nscn /\ bad' = bad
+Skipped == More /\ skip /\ Ev.ev # "Scenario" /\ l' = l + 1 /\ UNCHANGED <<bad, skip, nscn, envbad>>
+Finish  == l = Len(Trace) + 1 /\ l' = l + 1 /\ UNCHANGED <<bad, skip, nscn, envbad>>
+           /\ PrintT(<<"RESULT", Len(Trace), nscn, bad>>) /\ PrintT(<<"ENVBAD", envbad>>)
 =============================================================================
